@@ -280,6 +280,9 @@ async fn run(case: Json, tol: Tolerate) -> Outcome {
                             m.announced.clear();
                             out.hit("op.session-established");
                             if kind == "est-then-fin" {
+                                // what earlier sessions left behind (and what I1 watches over) is known
+                                // already: I2 judges this short session only
+                                old_before_drop = m.old_sources.len();
                                 t.nodes[0].spk.close();
                                 just_dropped = Some("fin".into());
                                 out.hit("fault.short-lived-session");
